@@ -13,7 +13,7 @@ META = {
     "trusted_base": ["clang 14 -O2 IR", "vtlib/llsym.py", "z3 5.1.0", "CrossHair 0.0.110", "C05 contract of the distance kernels (proved separately)",
                      "acos/atan2 are compared through their arguments, never through numeric values"],
     "assumptions": ["index rows are distinct atoms in range (as the Python layer checks)"],
-    "out": ["float behaviour near collinear / planar geometries", "the numpy reference paths _angle/_dihedral (opt=False) beyond their dispatch", "chi3-chi5 tables (same code path as chi1/chi2 with other table constants)"],
+    "out": ["float behaviour near collinear / planar geometries", "chi3-chi5 tables (same code path as chi1/chi2 with other table constants)"],
 }
 
 
@@ -34,6 +34,10 @@ def obligations():
         Obl("C07.indices.chi1", "xh", H, "chi1_indices", [D + "_indices_chi", D + "indices_chi1", D + "_atom_sequence"], "one residue with every presence pattern of 7 side-chain atom names next to a fixed residue",
             "chi1 rows = every (residue, table row) match, ordered by residue", 600),
         Obl("C07.indices.chi2", "xh", H, "chi2_indices", [D + "_indices_chi", D + "indices_chi2", D + "_atom_sequence"], "same for the chi2 table", "chi2 rows likewise", 600),
+        Obl("C07.reference_paths", "xh", H, "reference_paths", ["mdtraj.geometry.angle._angle", "mdtraj.geometry.dihedral._dihedral"], "opt=False paths; periodic flag as Python or numpy bool; two index rows incl. repeated / reversed atoms",
+            "every bond vector is requested with the caller's periodic flag for the right atom pair; the value is acos / atan2 of the textbook expression of those vectors", 200),
+        Obl("C07.torsions_after_edit", "xh", H, "torsions_after_edit", ["mdtraj.geometry.dihedral.indices_phi/psi/omega/chi1", "_construct_atom_dict"], "query, rename / delete an atom in place, query again (with and without a first query)",
+            "named torsions follow the CURRENT topology (no stale lookup table)", 200),
         Obl("C07.dispatch", "xh", H, "dispatch", ["mdtraj.geometry.angle.compute_angles", "mdtraj.geometry.dihedral.compute_dihedrals"],
             "angles|dihedrals x {no cell, orthorhombic, one skewed frame, triclinic, 90.00001 deg} x periodic x opt",
             "non-periodic/no-cell -> plain kernel; periodic -> *_mic kernel with the per-frame TRANSPOSED cell and orthogonal <=> every frame allclose to 90 deg; opt=False -> reference path", 300),
